@@ -171,6 +171,17 @@ func (c *Conn) Read(b []byte) (int, error)  { c.rec.sock("R", c.ep); return c.Co
 func (c *Conn) Write(b []byte) (int, error) { c.rec.sock("X", c.ep); return c.Conn.Write(b) }
 func (c *Conn) Close() error                { c.rec.sock("C", c.ep); return c.Conn.Close() }
 
+// CloseWrite: like ReadFrom below, keep the wrapper indistinguishable from the
+// *net.TCPConn it wraps for code that half-closes a tunnel when one direction
+// ends (a fallback to Close() there would be reported as the proxy closing
+// the client socket while the exchange is still in progress).
+func (c *Conn) CloseWrite() error {
+	if cw, ok := c.Conn.(interface{ CloseWrite() error }); ok {
+		return cw.CloseWrite()
+	}
+	return c.Close()
+}
+
 // ReadFrom makes the wrapper look like a *net.TCPConn to bufio.Writer.ReadFrom
 // (which otherwise parks tunnel bytes in its buffer): write-through copy.
 func (c *Conn) ReadFrom(r io.Reader) (int64, error) {
